@@ -465,6 +465,29 @@ Theorem C01_short_first_read_cuts_the_file :
 Proof. exact short_first_read_cuts_the_file. Qed.
 Print Assumptions C01_short_first_read_cuts_the_file.
 
+(* --- round 8 --- *)
+(* the cookie-octet test for all 256 byte values (DEL refused), and what passes it is written whole *)
+Theorem C01_cookie_value_byte_table : forall c,
+  valid_cookie_value_byte c =
+  negb ((bN c <? 32)%N || (127 <=? bN c)%N || beqb c """"%byte || beqb c ";"%byte || beqb c "\"%byte).
+Proof. exact cookie_value_byte_table. Qed.
+Print Assumptions C01_cookie_value_byte_table.
+
+Theorem C01_valid_cookie_sent_unaltered : forall c, valid_cookie c = true ->
+  cookie_pair c = fst c ++ "="%byte :: snd c \/
+  cookie_pair c = fst c ++ "="%byte :: """"%byte :: snd c ++ [""""%byte].
+Proof. exact valid_cookie_sent_unaltered. Qed.
+Print Assumptions C01_valid_cookie_sent_unaltered.
+
+(* a URL kept from the first attempt ignores what a retry hook changed (parseRequestURL runs afresh
+   for every attempt: attempt_url is parse_request_url of the ingredients as they are then) *)
+Theorem C01_cached_attempt_url_ignores_changed_ingredients :
+  exists cache base raw rp rp' cp cq rq,
+    cache = Some (raw, attempt_url base raw rp cp cq rq) /\
+    attempt_url_cached cache base raw rp' cp cq rq <> attempt_url base raw rp' cp cq rq.
+Proof. exact cached_attempt_url_ignores_changed_ingredients. Qed.
+Print Assumptions C01_cached_attempt_url_ignores_changed_ingredients.
+
 (* non-vacuity: a template with two holes, overlapping client/request keys and hostile values *)
 Example C01_nonvacuous :
   let ts := [TLit (bs "/users/"); THole (bs "id"); TLit (bs "/files/"); THole (bs "name")] in
